@@ -600,6 +600,32 @@ def rule_cli(ctx):
         calls = [c for c in walk_no_nested(fn) if is_self_call(c, {"get_stream"})]
         ok = len(calls) == 1 and any(k.arg == "offset" and isinstance(k.value, ast.Name) and k.value.id == "offset" for k in calls[0].keywords)
         ctx.ob("C01.CLI", fn, f"{name} forwards its offset to get_stream", ok, f"{name} does not forward `offset`", construct=f"cli:{name} offset")
+    gpc = p.methods("Client").get("get_passive_connection") or p.methods("BaseClient").get("get_passive_connection")
+    if gpc is not None:
+        bad = None
+        reached = False
+        for ev, out in enum_paths(p, gpc, unroll=1):
+            asked = False
+            nonempty = {src(e[1].operand) for e in ev if e[0] == "branch" and not e[2] and isinstance(e[1], ast.UnaryOp) and isinstance(e[1].op, ast.Not)} | \
+                {src(e[1]) for e in ev if e[0] == "branch" and e[2] and isinstance(e[1], ast.Name)}
+            if any(e[0] == "loopexit" and e[2] == 0 and isinstance(e[1], ast.For) and any(isinstance(x, ast.Name) and x.id in nonempty for x in ast.walk(e[1].iter)) for e in ev):
+                continue   # zero iterations over a collection that was just tested non-empty: infeasible
+            attempted = list(evaluated(ev)) + [e[2] for e in ev if e[0] == "exc" and isinstance(e[2], ast.AST)]
+            attempted.sort(key=lambda n: (getattr(n, "lineno", 0), getattr(n, "col_offset", 0)))
+            for n in attempted:
+                if isinstance(n, FuncT):
+                    continue
+                for c in walk_self(n):
+                    if isinstance(c, ast.Call) and (isinstance(c.func, ast.Subscript) and last_attr(c.func.value) == "functions" or is_self_call(c, {"_do_epsv", "_do_pasv"})):
+                        asked = True
+                    if isinstance(c, ast.Call) and is_self_call(c, {"_open_connection"}):
+                        reached = True
+                        if not asked:
+                            bad = c
+        ctx.ob("C01.CLI", bad if bad is not None else gpc, "every data connection is opened right after its own passive command (no remembered endpoint)", reached and bad is None,
+               "get_passive_connection can open a data connection without sending a passive command first (remembered endpoint): the server drops a stale data connection only when it "
+               "answers a passive command, so after a failed stream set-up the next transfer is served on the stale connection (empty upload answered 226)",
+               construct="cli:passive command skipped")
     fin = p.method("DataConnectionThrottleStreamIO", "finish")
     seq = []
     for s in fin.body:
